@@ -363,24 +363,46 @@ def nworkers():
     return max(1, min(16, int(os.environ.get("VERIF_WORKERS", n))))
 
 
-def parallel(modname, fname, items, seed=0, maxtasksperchild=None, workers=None):
-    """Run modname.fname(item) for every item in worker processes (spawned, never forked: HAL and
-    ntcore own threads).  The seed only permutes the work order.  Yields result dicts."""
-    import multiprocessing as mp
-    import random
+class WorkerPool:
+    """Spawned worker processes (never forked: HAL and ntcore own threads), reusable for several rounds."""
 
-    items = list(items)
-    order = list(range(len(items)))
-    random.Random(seed).shuffle(order)
-    env = {k: v for k, v in os.environ.items() if k.startswith("VERIF_") or k in ("PYTHONPYCACHEPREFIX", "PYTHONHASHSEED")}
-    scratch_root()
-    env["VERIF_SCRATCH"] = os.environ["VERIF_SCRATCH"]
-    env["VERIF_SCRATCH_OWNER"] = os.environ["VERIF_SCRATCH_OWNER"]
-    n = min(workers or nworkers(), max(1, len(items)))
-    ctx = mp.get_context("spawn")
-    with ctx.Pool(n, initializer=_pool_init, initargs=(env,), maxtasksperchild=maxtasksperchild) as pool:
-        for status, out in pool.imap_unordered(_pool_call, [(modname, fname, items[i]) for i in order]):
+    def __init__(self, workers=None, maxtasksperchild=None):
+        import multiprocessing as mp
+
+        env = {k: v for k, v in os.environ.items() if k.startswith("VERIF_") or k in ("PYTHONPYCACHEPREFIX", "PYTHONHASHSEED")}
+        scratch_root()
+        env["VERIF_SCRATCH"] = os.environ["VERIF_SCRATCH"]
+        env["VERIF_SCRATCH_OWNER"] = os.environ["VERIF_SCRATCH_OWNER"]
+        self.n = workers or nworkers()
+        self.pool = mp.get_context("spawn").Pool(self.n, initializer=_pool_init, initargs=(env,), maxtasksperchild=maxtasksperchild)
+
+    def run(self, modname, fname, items, seed=0, weight=None):
+        """Run modname.fname(item) for every item; the seed only permutes the work order.  Yields results."""
+        import random
+
+        items = list(items)
+        order = list(range(len(items)))
+        random.Random(seed).shuffle(order)
+        if weight is not None:
+            order.sort(key=lambda i: -weight(items[i]))  # heaviest first; the seed permutes ties
+        for status, out in self.pool.imap_unordered(_pool_call, [(modname, fname, items[i]) for i in order]):
             if status != "ok":
-                pool.terminate()
+                self.pool.terminate()
                 raise HarnessError(out)
             yield out
+
+    def close(self):
+        self.pool.terminate()
+        self.pool.join()
+
+    def __enter__(self):
+        return self
+
+    def __exit__(self, *a):
+        self.close()
+
+
+def parallel(modname, fname, items, seed=0, maxtasksperchild=None, workers=None, weight=None):
+    items = list(items)
+    with WorkerPool(min(workers or nworkers(), max(1, len(items))), maxtasksperchild) as wp:
+        yield from wp.run(modname, fname, items, seed=seed, weight=weight)
